@@ -496,7 +496,10 @@ def apply(pinned_text, current_text, edits, strip_attrs=True, cfg_features=None)
     if strip_attrs:
         # attributes are located in the CURRENT text (they carry no annotation anchors)
         st = c.sigtext
+        skip_until = -1
         for (_, a, b) in strip_attr_edits(c):
+            if a <= skip_until:
+                continue  # inside an element already dropped by T10
             attr = c.text[c.sig[a][1]:c.sig[b][2]]
             m = re.match(r'#\s*\[\s*cfg\s*\(\s*feature\s*=\s*"([^"]+)"\s*\)\s*\]$', attr)
             if m and cfg_features is not None and m.group(1) not in cfg_features:
@@ -517,6 +520,7 @@ def apply(pinned_text, current_text, edits, strip_attrs=True, cfg_features=None)
                         break
                     j += 1
                 add(c.sig[a][1], c.sig[j][2], 'drop', '', {'tag': 'T10', 'note': 'feature %s off' % m.group(1)})
+                skip_until = j
             else:
                 add(c.sig[a][1], c.sig[b][2], 'drop', '', {'tag': 'T10' if m else 'T5'})
     for e in edits:
